@@ -1,4 +1,5 @@
 import BarterModel.Lemmas.Orders
+import BarterModel.Lemmas.Review1
 /-!
 # C01 — Active-order tracking follows the documented order lifecycle
 
@@ -9,6 +10,10 @@ property text). All theorems hold from **every** table `m` (not only reachable o
 finite op list. The only hypothesis is `exchangeStatesOnly`: order snapshots carry the states an
 exchange can report (in-flight echo / open / cancelled / fully filled / failed / expired), not a
 hand-built "cancel in flight" marker.
+The timestamp clause ("never moves back to an older exchange timestamp") is proved **per tracking
+episode** of an id (`time_monotone_step`, `time_monotone_run`, `time_monotone_episode`); across
+episodes it is false of model and code, which is made visible by the kernel-checked witnesses
+`resurrection_witness` and `duplicate_request_witness` at the end of the file.
 -/
 namespace BarterModel.Props.C01
 open BarterModel.Orders
@@ -141,7 +146,9 @@ theorem cancel_err_restores (m : Orders) (cid : Nat) :
     | cancelInFlight x => cases x <;> rfl
 
 /-- "never moves back": if exchange data with timestamp `t` was held, then afterwards the id is
-either untracked or holds exchange data with a timestamp `≥ t`. -/
+either untracked or holds exchange data with a timestamp `≥ t`. NOTE: "untracked afterwards" counts
+as success, so this is a statement about ONE tracking episode of the id; see the section "Scope of the
+timestamp clause as proved" at the end of this file. -/
 def NoRollback (before after : Option Active) : Prop :=
   ∀ t, heldTime before = some t → after = none ∨ ∃ t', heldTime after = some t' ∧ t ≤ t'
 
@@ -223,9 +230,13 @@ theorem time_monotone_step (m : Orders) (op : Op) (c : Nat) (hx : op.exchangeSta
             right; refine ⟨t, ?_, Int.le_refl t⟩
             simpa [Lifecycle.step, heldTime, Active.openMeta] using ht
 
-/-- (4) over histories: along any history during which the id stays tracked and no open request is
-re-sent for it, the held exchange timestamp never decreases (any order, duplication or staleness
-of reports). -/
+/-- (4) over histories, **per tracking episode**: along any history during which the id stays tracked
+(`htracked`: at every prefix — i.e. within ONE uninterrupted tracking episode) and no open request is
+re-sent for it (`hdup`), the held exchange timestamp never decreases (any order, duplication or
+staleness of reports). Both hypotheses are necessary: across episodes a stale open report resurrects a
+finished order with older data (`resurrection_witness`, `time_monotone_run_needs_tracked`), and a
+re-sent open request forgets the confirmed data (`duplicate_request_witness`).
+`time_monotone_episode` is the version with syntactic hypotheses. -/
 theorem time_monotone_run (m : Orders) (ops : List Op) (c : Nat)
     (hx : ∀ op ∈ ops, op.exchangeStatesOnly = true)
     (hdup : ∀ op ∈ ops, ∀ q p x, op ≠ .recOpen c q p x)
@@ -266,5 +277,151 @@ example : remZero 10 o3full = true ∧ remZero 10 o2 = false := by decide +kerne
 -- the hypotheses of `time_monotone_run` are met by a non-trivial history
 example : heldTime (stateOf (run [] [.recOpen 1 10 100, .snapshot ⟨1, 10, 100, .active (.opn o1), 0⟩]) 1) = some 1 := by
   decide +kernel +kernel
+
+/-! ## Added after the independent review (audit/report_C01-C05.md, items C01-1, C01-2, C01-3)
+
+**Scope of the timestamp clause as proved.** `time_monotone_step` / `time_monotone_run` decide "the
+exchange-reported data held for an order never moves back to an older exchange timestamp" **within
+one uninterrupted tracking episode of the id**: `NoRollback` counts "untracked afterwards" as success,
+`time_monotone_run` assumes (`htracked`) that the id stays tracked at every prefix of the history and
+(`hdup`) that no open request is re-sent for it. `time_monotone_episode` below is the same statement
+with SYNTACTIC hypotheses (no event of the history ends the episode) instead of `htracked`.
+ACROSS episodes the clause is false of the model and of the code, because a finished order leaves no
+trace (`(Entry::Vacant, Some(update)) => insert`, order/mod.rs): `resurrection_witness` (a stale open
+report after a terminal one re-tracks the order with the OLDER timestamp) and
+`duplicate_request_witness` (a re-sent open request overwrites the confirmed data, after which an
+older report is accepted). Both are kernel-checked below so that the boundary is part of the audited
+file; the first is recorded as a known finding of C09 (`clause=ord_resurrected`). -/
+
+/-- (4) **one tracking episode, syntactic form.** Along any history of open reports with something
+left to fill (any timestamps, any order, duplicates), cancel requests and failed cancels for an order
+that holds exchange-confirmed data with timestamp `t`, the order stays tracked and the timestamp held
+at the end is `≥ t` and `≥` the timestamp of every report delivered. No `htracked` hypothesis: none of
+these events can end the episode. -/
+theorem time_monotone_episode (m : Orders) (c : Nat) (q p : Rat) (evs : List EpisodeEv)
+    (hne : ∀ ev ∈ evs, ev.ends q = false) (hc : ExchangeConfirmed (stateOf m c)) (t : Int)
+    (h0 : heldTime (stateOf m c) = some t) :
+    ∃ t', heldTime (stateOf (run m (evs.map (EpisodeEv.toOp c q p))) c) = some t' ∧ t ≤ t' ∧
+      ∀ r ∈ episodeReports evs, r.t ≤ t' := by
+  have hm : ∀ st : Option Active, heldTime st = (heldMeta st).map (·.t) := by
+    intro st; cases st <;> rfl
+  rw [hm] at h0
+  cases hh : heldMeta (stateOf m c) with
+  | none => simp [hh] at h0
+  | some o0 =>
+    simp only [hh, Option.map_some, Option.some.injEq] at h0
+    obtain ⟨o, ho, _, hle, hall⟩ := episode_holds_greatest m c q p evs hne hc o0 hh
+    exact ⟨o.t, by rw [hm, ho]; rfl, by omega, hall⟩
+
+/-- (4, C01-1) **boundary witness: resurrection.** History: open report `t = 5`; cancelled report;
+stale open report `t = 1` (a late duplicate). All reports carry exchange states only, no open request
+is re-sent. After the first report the id holds timestamp 5; after the third it is tracked AGAIN and
+holds timestamp 1 < 5. So `htracked` cannot be dropped from `time_monotone_run`. -/
+theorem resurrection_witness :
+    let open5 : Op := .snapshot ⟨1, 10, 100, .active (.opn ⟨7, 5, 0⟩), 0⟩
+    let cancelled : Op := .snapshot ⟨1, 10, 100, .inactive .cancelled, 0⟩
+    let open1 : Op := .snapshot ⟨1, 10, 100, .active (.opn ⟨7, 1, 0⟩), 0⟩
+    heldTime (stateOf (run [] [open5]) 1) = some 5 ∧
+    stateOf (run [] [open5, cancelled]) 1 = none ∧
+    heldTime (stateOf (run [] [open5, cancelled, open1]) 1) = some 1 ∧
+    (∀ op ∈ [open5, cancelled, open1], op.exchangeStatesOnly = true) := by decide +kernel
+
+/-- (4, C01-1) hence the run theorem WITHOUT `htracked` is false. -/
+theorem time_monotone_run_needs_tracked :
+    ¬ (∀ (m : Orders) (ops : List Op) (c : Nat),
+      (∀ op ∈ ops, op.exchangeStatesOnly = true) →
+      (∀ op ∈ ops, ∀ q p x, op ≠ .recOpen c q p x) →
+      ∀ t t', heldTime (stateOf m c) = some t → heldTime (stateOf (run m ops) c) = some t' → t ≤ t') := by
+  intro h
+  have := h (run [] [.snapshot ⟨1, 10, 100, .active (.opn ⟨7, 5, 0⟩), 0⟩])
+    [.snapshot ⟨1, 10, 100, .inactive .cancelled, 0⟩, .snapshot ⟨1, 10, 100, .active (.opn ⟨7, 1, 0⟩), 0⟩] 1
+    (by decide +kernel)
+    (by intro op hop q p x; simp at hop; rcases hop with h | h <;> simp [h])
+    5 1 (by decide +kernel) (by decide +kernel)
+  omega
+
+/-- (4, C01-2) **boundary witness: duplicate open request.** History: open request sent; open report
+`t = 5`; the SAME open request sent again; open report `t = 1`. The id stays tracked throughout, holds
+timestamp 5 after the second op and timestamp 1 at the end: `hdup` cannot be dropped either. (The
+code logs an error when it overwrites a tracked order with a new in-flight request; fresh client
+order ids are the strategy's obligation.) -/
+theorem duplicate_request_witness :
+    let h : List Op := [.recOpen 1 10 100, .snapshot ⟨1, 10, 100, .active (.opn ⟨7, 5, 0⟩), 0⟩,
+      .recOpen 1 10 100, .snapshot ⟨1, 10, 100, .active (.opn ⟨7, 1, 0⟩), 0⟩]
+    heldTime (stateOf (run [] (h.take 2)) 1) = some 5 ∧
+    heldTime (stateOf (run [] h) 1) = some 1 ∧
+    (∀ k, k ≤ h.length → 1 ≤ k → (stateOf (run [] (h.take k)) 1).isSome = true) := by
+  refine ⟨by decide +kernel, by decide +kernel, ?_⟩
+  intro k hk h1
+  have : k = 1 ∨ k = 2 ∨ k = 3 ∨ k = 4 := by simp at hk; omega
+  rcases this with rfl | rfl | rfl | rfl <;> decide +kernel
+
+/-- (5, C01-3) **a failed cancel restores the LAST EXCHANGE-CONFIRMED open state, over histories.**
+After any interleaving of open reports (something left to fill; any timestamps, duplicates, stale
+ones), cancel requests (sent once or repeatedly) and earlier failed cancels on one order, if the order
+is being cancelled and the cancel then fails, the order is `Open` again with details `o` that are
+exactly those of a delivered report (or the ones held at the start), and no report delivered — nor the
+data held at the start — has a greater exchange timestamp. (Which of several equal-timestamp reports:
+the last delivered, `C09.cancel_err_restores_latest_confirmed`.) -/
+theorem cancel_err_restores_greatest_confirmed (m : Orders) (c : Nat) (q p : Rat)
+    (evs : List EpisodeEv) (hne : ∀ ev ∈ evs, ev.ends q = false)
+    (hc : ExchangeConfirmed (stateOf m c)) (o : Open)
+    (hst : stateOf (run m (evs.map (EpisodeEv.toOp c q p))) c = some (.cancelInFlight (some o))) :
+    stateOf (step (run m (evs.map (EpisodeEv.toOp c q p))) (.cancelResp c false)) c = some (.opn o) ∧
+    (o ∈ episodeReports evs ∨ heldMeta (stateOf m c) = some o) ∧
+    (∀ r ∈ episodeReports evs, r.t ≤ o.t) ∧
+    (∀ h, heldMeta (stateOf m c) = some h → h.t ≤ o.t) := by
+  refine ⟨?_, ?_⟩
+  · rw [cancel_err_restores, hst]
+  · have hreg := (episode_register m c q p evs hc).1
+    rw [hst, episodeRegister_no_end q _ evs hne] at hreg
+    have hl : heldMeta (some (Active.cancelInFlight (some o))) = some o := rfl
+    rw [hl] at hreg
+    cases hr : Stale.deliver false ((heldMeta (stateOf m c)).map openMsg)
+        ((episodeReports evs).map openMsg) with
+    | none => rw [hr] at hreg; cases hreg
+    | some r =>
+      rw [hr] at hreg
+      have hro : r.2 = o := by simpa using hreg.symm
+      have hg := Stale.deliver_ge false _ _ r hr
+      have hmem := Stale.deliver_mem false _ _ r hr
+      have hr1 : r = openMsg o := by
+        rcases hmem with hm | hm
+        · obtain ⟨x, hx, rfl⟩ := List.mem_map.mp hm
+          simp only [openMsg] at hro ⊢; rw [hro]
+        · cases hh : heldMeta (stateOf m c) with
+          | none => simp [hh] at hm
+          | some h0 =>
+            simp only [hh, Option.map_some, Option.some.injEq] at hm
+            rw [← hm] at hro ⊢; simp only [openMsg] at hro ⊢; rw [hro]
+      subst hr1
+      refine ⟨?_, ?_, ?_⟩
+      · rcases hmem with hm | hm
+        · left
+          obtain ⟨x, hx, hxe⟩ := List.mem_map.mp hm
+          have : x = o := by simpa [openMsg] using congrArg Prod.snd hxe
+          rw [← this]; exact hx
+        · right
+          cases hh : heldMeta (stateOf m c) with
+          | none => simp [hh] at hm
+          | some h0 =>
+            simp only [hh, Option.map_some, Option.some.injEq] at hm
+            have : h0 = o := by simpa [openMsg] using congrArg Prod.snd hm
+            rw [this]
+      · intro x hx
+        simpa [openMsg] using hg.2 (openMsg x) (List.mem_map.mpr ⟨x, hx, rfl⟩)
+      · intro h hh
+        simpa [openMsg] using hg.1 (openMsg h) (by rw [hh]; rfl)
+
+/-! Non-vacuity of the added statements. -/
+-- the history of C01-3 (cancel failures in the middle, a stale report): restored to the t = 5 report
+example : stateOf (run [] ([EpisodeEv.report ⟨7, 5, 0⟩, .cancelSent, .cancelFailed, .report ⟨7, 3, 0⟩,
+    .cancelSent].map (EpisodeEv.toOp 1 10 100))) 1 = some (.cancelInFlight (some ⟨7, 5, 0⟩)) ∧
+    (∀ ev ∈ [EpisodeEv.report ⟨7, 5, 0⟩, .cancelSent, .cancelFailed, .report ⟨7, 3, 0⟩, .cancelSent],
+      ev.ends 10 = false) ∧ ExchangeConfirmed (stateOf ([] : Orders) 1) := by
+  refine ⟨by decide +kernel, by decide +kernel, Or.inl rfl⟩
+example : stateOf (step (run [] ([EpisodeEv.report ⟨7, 5, 0⟩, .cancelSent, .cancelFailed, .report ⟨7, 3, 0⟩,
+    .cancelSent].map (EpisodeEv.toOp 1 10 100))) (.cancelResp 1 false)) 1 = some (.opn ⟨7, 5, 0⟩) := by
+  decide +kernel
 
 end BarterModel.Props.C01
